@@ -268,6 +268,9 @@ func (r *Recorder) After(c Call, delivered int, err error) {
 type FaultAt struct {
 	K     int
 	Elems int // elements to deliver before failing
+	// Persist: every call from K on fails (an outage), the first one after Elems
+	// elements, the later ones before delivering anything
+	Persist bool
 	mu    sync.Mutex
 	Fired bool
 	Hit   Call
@@ -277,6 +280,9 @@ type FaultAt struct {
 var ErrInjected = fmt.Errorf("injected storage driver failure")
 
 func (f *FaultAt) Before(c Call) *Fault {
+	if f.Persist && c.Seq > f.K {
+		return &Fault{Err: ErrInjected}
+	}
 	if c.Seq != f.K {
 		return nil
 	}
